@@ -1,5 +1,6 @@
 #!/bin/sh
 # usage: tools/try_patch.sh <patch.diff> [-R] -- C01 C02 ...   : apply to /repo, run the quick checks, undo.
+# Evidence files are saved and restored: committed evidence must come from runs on the unchanged tree.
 patch="$1"; shift
 rev=""
 if [ "$1" = "-R" ]; then rev="-R"; shift; fi
@@ -8,7 +9,10 @@ cd /repo || exit 2
 git diff --quiet || { echo "/repo has uncommitted changes"; exit 2; }
 git apply $rev "$patch" || { echo "patch does not apply"; exit 3; }
 cd /verif
+rm -rf /tmp/evidence.saved && cp -r evidence /tmp/evidence.saved
 for id in "$@"; do
   ./check "$id" --tier quick 2>&1 | grep -E "VIOLATION|KNOWN-FINDING| -> |violation:|break:|disagreement" | cut -c1-260 | head -8
 done
 git -C /repo checkout -- .
+rm -rf evidence && mv /tmp/evidence.saved evidence
+python3 tools/translate/translate.py > /dev/null
